@@ -7,7 +7,11 @@ A check that reports a violation there matched a *name* instead of a *role*.
 With --hoist-returns the transformation is instead `return E`  ->  `returned__h = E; return returned__h` in every function (E not a plain
 name / constant): a check that reads a return expression without following the one name it now has depends on the spelling.
 
-usage: alpha.py [--suffix _q] [--hoist-returns] [--only C08,C20] [--keep]
+With --name-arguments every non-trivial argument of a call that is the whole value of a simple statement (assignment, expression
+statement, return) gets a name of its own in front of the statement, left to right (`x = f(a + 1, k=g(b))` -> `arg__n0 = a + 1;
+arg__n1 = g(b); x = f(arg__n0, k=arg__n1)`): the everyday `named intermediates` refactoring applied everywhere.
+
+usage: alpha.py [--suffix _q] [--hoist-returns | --name-arguments] [--only C08,C20] [--keep]
 """
 import ast
 import json
@@ -129,6 +133,63 @@ def hoist_returns(tree):
     return count
 
 
+def name_arguments(tree):
+    count = [0]
+
+    def trivial(e):
+        return isinstance(e, (ast.Name, ast.Constant, ast.Starred, ast.Lambda)) or (isinstance(e, ast.Attribute) and trivial(e.value)) \
+            or (isinstance(e, ast.UnaryOp) and isinstance(e.operand, ast.Constant))
+
+    def path(e):
+        while isinstance(e, ast.Attribute):
+            e = e.value
+        return isinstance(e, ast.Name)
+
+    class T(ast.NodeTransformer):
+        def _block(self, stmts, used):
+            out = []
+            for st in stmts:
+                call = None
+                if isinstance(st, (ast.Assign, ast.Expr, ast.Return)) and isinstance(getattr(st, "value", None), ast.Call):
+                    call = st.value
+                if call is not None and path(call.func) and not any(isinstance(a, ast.Starred) for a in call.args) and not any(k.arg is None for k in call.keywords) \
+                        and not (isinstance(call.func, ast.Name) and call.func.id in ("super", "isinstance", "len", "print", "range", "zip", "enumerate", "locals", "vars")):
+                    pre = []
+                    for i, a in enumerate(call.args):
+                        if not trivial(a):
+                            nm = f"arg__n{count[0]}"
+                            count[0] += 1
+                            pre.append(ast.Assign(targets=[ast.Name(id=nm, ctx=ast.Store())], value=a, lineno=st.lineno, col_offset=st.col_offset))
+                            call.args[i] = ast.Name(id=nm, ctx=ast.Load())
+                    for k in call.keywords:
+                        if not trivial(k.value):
+                            nm = f"arg__n{count[0]}"
+                            count[0] += 1
+                            pre.append(ast.Assign(targets=[ast.Name(id=nm, ctx=ast.Store())], value=k.value, lineno=st.lineno, col_offset=st.col_offset))
+                            k.value = ast.Name(id=nm, ctx=ast.Load())
+                    out += pre
+                out.append(st)
+            return out
+
+        def generic_visit(self, node):
+            node = super().generic_visit(node)
+            if isinstance(node, (ast.Lambda, ast.ClassDef, ast.Module)):
+                return node
+            for fld in ("body", "orelse", "finalbody"):
+                v = getattr(node, fld, None)
+                if isinstance(v, list) and v and isinstance(v[0], ast.stmt):
+                    setattr(node, fld, self._block(v, None))
+            if isinstance(node, ast.Try):
+                for h in node.handlers:
+                    h.body = self._block(h.body, None)
+            return node
+    for fn in [n for n in ast.walk(tree) if isinstance(n, (ast.FunctionDef, ast.AsyncFunctionDef))]:
+        pass
+    T().visit(tree)
+    ast.fix_missing_locations(tree)
+    return count[0]
+
+
 def main():
     suffix = "_q"
     only = None
@@ -149,11 +210,11 @@ def main():
         for path in files:
             src = open(path).read()
             tree = ast.parse(src)
-            k = hoist_returns(tree) if "--hoist-returns" in sys.argv else rename_locals(tree, suffix)
+            k = hoist_returns(tree) if "--hoist-returns" in sys.argv else (name_arguments(tree) if "--name-arguments" in sys.argv else rename_locals(tree, suffix))
             if k:
                 open(path, "w").write(ast.unparse(tree) + "\n")
                 total += k
-        print(f"{'hoisted ' + str(total) + ' return expressions' if '--hoist-returns' in sys.argv else 'renamed ' + str(total) + ' local-name occurrences'} in {len(files)} files")
+        print(f"{'named ' + str(total) + ' call arguments' if '--name-arguments' in sys.argv else 'hoisted ' + str(total) + ' return expressions' if '--hoist-returns' in sys.argv else 'renamed ' + str(total) + ' local-name occurrences'} in {len(files)} files")
         env = dict(os.environ, VERIF_REPO_ROOT=scratch, VERIF_OUT_DIR=out)
         r = subprocess.run(["/venv/bin/python", os.path.join(VERIF, "bin", "check_all.py")], capture_output=True, text=True, env=env, cwd=VERIF)
         line = [l for l in r.stdout.splitlines() if l.startswith("RESULT ")]
